@@ -160,7 +160,7 @@ def instantiate(terms, rounds=5, templates=None):
         for e in t.args if t.op == "and" else [t]:
             if e.op == "=" and len(e.args) == 2:
                 for c, d in ((e.args[0], e.args[1]), (e.args[1], e.args[0])):
-                    if c.op == "#const" and isinstance(c.sort, tuple) and c.sort[0] == "Seq" and (d.op == "seq.++" or d.op.startswith("hom_")):
+                    if c.op == "#const" and isinstance(c.sort, tuple) and c.sort[0] == "Seq" and (d.op in ("seq.++", "sorted_int") or d.op.startswith("hom_")):
                         seq_defs.setdefault(str(c), []).append(d)
     for rnd in range(rounds):
         allsub = {}
@@ -190,6 +190,11 @@ def instantiate(terms, rounds=5, templates=None):
             if h.tpl is not None and h.tpl["template"].op == "seq.unit":
                 # map-shaped spec function: one output element per input element
                 new.append(Eq(Len(fx), Len(x)))
+            if x.op == "#const" and str(x) in seq_defs and str(x).startswith("lst!"):
+                # a named intermediate list value: the spec function of the name is the spec function of its definition
+                for d in seq_defs[str(x)][:1]:
+                    new.append(Eq(fx, h.of(d)))
+                    stack.append((h, d))
             if x.op == "#empty":
                 new.append(Eq(fx, h.zero()))
             elif x.op == "seq.unit":
@@ -609,8 +614,13 @@ def instantiate(terms, rounds=5, templates=None):
         seq_all = persist.setdefault("seq_terms", {})
         idx_all = persist.setdefault("idx_all", {})
         for t in allsub.values():
-            if (t.op.startswith("hom_") or t.op == "seq.++") and isinstance(t.sort, tuple):
+            if (t.op.startswith("hom_") or t.op in ("seq.++", "sorted_int")) and isinstance(t.sort, tuple):
                 seq_all.setdefault(str(t), t)
+            if t.op == "sorted_int":
+                kk = ("sorted", str(t))
+                if kk not in done_other:
+                    done_other.add(kk)
+                    new.append(Eq(Len(t), Len(t.args[0])))
         for ks, d in idx_terms.items():
             idx_all.setdefault(ks, {}).update(d)
         for t in list(fa_all.values()):
@@ -637,6 +647,8 @@ def instantiate(terms, rounds=5, templates=None):
                     if filter_shape(Hom(x, templates)):
                         return is_derived(x.args[0])
                     return False
+                if x.op == "sorted_int":
+                    return is_derived(x.args[0])
                 if x.op == "seq.++":
                     return all(is_derived(a) for a in x.args)
                 if x.op == "#const" and str(x) in seq_defs:
